@@ -564,6 +564,8 @@ func gen(g *core.G) {
 		vg := &vgen{r: g.Rng}
 		emitMatrix2(g, c, vg.value(1+g.Rng.Intn(3), false), true)
 	}
+	// instances of the object types pcore implements in Go (implementation only)
+	emitBuiltins(g)
 	// the real leaf codecs on their own (implementation only)
 	for _, k := range leafKinds {
 		for _, src := range leafSrc[k] {
